@@ -57,6 +57,15 @@ impl PanicRec {
 }
 
 pub fn norm_msg(m: &str) -> String {
+    // assertion messages carry the offending values: keep the statement only
+    let m = match m.find("\n  left:") {
+        Some(i) => &m[..i],
+        None => m,
+    };
+    let m = match m.find("  left:") {
+        Some(i) => &m[..i],
+        None => m,
+    };
     let mut s = String::new();
     let mut last_hash = false;
     for c in m.chars() {
